@@ -2,6 +2,7 @@ import Driver.Kern
 import Driver.Preds
 import Driver.Suite
 import Driver.Convert
+import Driver.DA
 open Sunrise.Driver
 
 def evalLine (line : String) : String :=
@@ -19,7 +20,8 @@ partial def loop (h : IO.FS.Stream) (out : IO.FS.Stream) : IO Unit := do
 
 /-- stateful suites: first input line `suite <name>` -/
 def suites : List (String × (IO.FS.Stream → IO.FS.Stream → IO Unit)) := [
-  ("convert", ConvertSuite.run)
+  ("convert", ConvertSuite.run),
+  ("da", DASuite.run)
 ]
 
 def main : IO Unit := do
